@@ -114,6 +114,13 @@ func c03Spec(rng *rand.Rand, i int) *SessSpec {
 			sp.Steps = append(sp.Steps, Step{Op: "barrier"})
 		}
 	}
+	if len(sp.Rollbacks) == 0 && rng.Intn(3) == 0 {
+		// a stream ends with a recoverable status and is re-opened by the library: what the new stream carries is delivered
+		// like everything else
+		vb := rng.Intn(sp.NumVB)
+		sp.Steps = append(sp.Steps, Step{Op: "barrier"}, Step{Op: "end", VB: vb, St: []uint32{2, 3, 4, 5}[rng.Intn(4)]}, Step{Op: "waitreopen", VB: vb, N: 2},
+			Step{Op: "append", VB: vb, Items: genSnap(rng, o, &ctr)}, Step{Op: "append", VB: vb, Items: genSnap(rng, o, &ctr)})
+	}
 	sp.Steps = append(sp.Steps, Step{Op: "barrier"})
 	return sp
 }
